@@ -364,7 +364,29 @@ func runConcMode(c ConcCase, x *h.Ctx, raceMode bool) {
 			}
 		}
 	}
+	// distinct txs submitted per account+nonce: a tx that shares its nonce with a different tx may be
+	// accepted (nil) and dropped at once because pending already holds the other one; it is then not
+	// held and its byte-identical resubmission is not a duplicate of anything in the pool.
+	variantsAt := map[string]map[string]bool{}
+	for w := range work {
+		for _, sm := range work[w] {
+			if sm.admin {
+				continue
+			}
+			k := fmt.Sprintf("%d/%d", sm.a, sm.n)
+			if variantsAt[k] == nil {
+				variantsAt[k] = map[string]bool{}
+			}
+			variantsAt[k][string(sm.raw)] = true
+		}
+	}
 	for raw, k := range accepts {
+		if sm := rawInfo[raw]; len(variantsAt[fmt.Sprintf("%d/%d", sm.a, sm.n)]) > 1 {
+			if k > 1 {
+				x.Label("obs:resubmission-of-dropped-same-nonce-variant-accepted-again")
+			}
+			continue
+		}
 		if k > 1 {
 			if x.Fail("exact-duplicate-accepted:concurrent", "tx %s was accepted %d times", rawInfo[raw].key, k) {
 				return
